@@ -108,6 +108,16 @@ def source(name, fields, rows):
     return d.load((desc, [iter(copy.deepcopy(rows))]), strip=False)
 
 
+def shared_source(names, fields, tables):
+    """ONE load((descriptor, iterators)) step whose resources are all described by the same schema dict OBJECT (what a
+    caller gets from `schema = {...}; resources = [dict(name=n, schema=schema) for n in names]`)."""
+    d = df()
+    one_schema = {'fields': copy.deepcopy(fields)}
+    desc = {'resources': [{'name': n, 'path': n + '.csv', 'profile': 'tabular-data-resource', 'schema': one_schema}
+                          for n in names]}
+    return d.load((desc, [iter(copy.deepcopy(tables[n])) for n in names]), strip=False)
+
+
 class Outcome:
     """Result of running a flow: ok (results, descriptor, stats) or err (exception)."""
 
